@@ -62,3 +62,25 @@ pub fn secret_of_kind(rng: &mut Rng, kind: usize, depth: usize) -> (SecretMeta, 
     if rng.chance(1, 3) { meta.set_urn(Some("urn:sos:verif".parse().unwrap())); }
     (meta, secret)
 }
+
+/// Deeply nested custom fields: `hcore nest --depth N` decodes a Secret whose user data nests N levels
+/// (each level is a note with one custom field).  Run in a child process: a stack overflow aborts.
+pub fn nest_probe(cli: &hcommon::Cli) {
+    let depth: usize = cli.extra.get("depth").and_then(|s| s.parse().ok()).unwrap_or(1000);
+    let rt = tokio::runtime::Builder::new_current_thread().build().unwrap();
+    let inner = Secret::Note { text: ss("x"), user_data: UserData::default() };
+    let mut ud = UserData::default();
+    ud.push(SecretRow::new(SecretId::nil(), SecretMeta::new("f".into(), inner.kind()), inner.clone()));
+    let outer = Secret::Note { text: ss("x"), user_data: ud };
+    let (e0, e1) = rt.block_on(async { (sos_core::encode(&inner).await.unwrap(), sos_core::encode(&outer).await.unwrap()) });
+    // e1 = P ++ e0 ++ S
+    let pos = (0..=e1.len() - e0.len()).rev().find(|i| &e1[*i..*i + e0.len()] == &e0[..]).expect("inner encoding inside outer");
+    let (p, s) = (&e1[..pos], &e1[pos + e0.len()..]);
+    let mut bytes = Vec::with_capacity(depth * (p.len() + s.len()) + e0.len());
+    for _ in 0..depth { bytes.extend_from_slice(p); }
+    bytes.extend_from_slice(&e0);
+    for _ in 0..depth { bytes.extend_from_slice(s); }
+    eprintln!("nest depth={depth} bytes={}", bytes.len());
+    let r: Result<Secret, _> = rt.block_on(async { sos_core::decode(&bytes).await });
+    match r { Ok(v) => { println!("decoded ok"); std::mem::forget(v); } Err(e) => println!("error: {e}") }
+}
